@@ -264,6 +264,10 @@ GUARD_FORMS = ["{S} = 1", "[ {S} ] = [ 1 ]", "[ a , {S} ] = [ 1 , 2 ]", "[ {S} ,
                "require x as {S}", "require x import [ a as {S} ]", "def class {S} do end", "f ( {S} = 1 )",
                "do [ {S} , b ] = [ 1 , 2 ] ; end", "fn ( ) [ a , [ {S} ] ] = 1", "{S}", "{S} ( )", "def f ( ) do {S} = 1 ; end"]
 GUARD_TEXTS = sorted({f.replace("{S}", sv) for f in GUARD_FORMS for sv in _SYS})
+# pattern literals the host's regular-expression compiler accepts with a warning about its future syntax: whether a
+# text is a program must not depend on the host's warning filter (one fresh process runs with warnings as errors)
+WARN_TEXTS = ["//[[a]//", "//[a--b]//", "//[a&&b]//", "//[a||b]//", "//[a~~b]//", "def p = //[[:alpha:]]//", "x matches //[[a]//"]
+GUARD_TEXTS = sorted(set(GUARD_TEXTS) | set(WARN_TEXTS))
 
 
 def compose(rng, fragments, n):
@@ -468,7 +472,9 @@ def cross_process(run, texts, here, seeds):
         for sd in seeds:
             out = os.path.join(d, f"out{sd}.json")
             env = dict(os.environ, PYTHONHASHSEED=str(sd))
-            procs.append((sd, out, subprocess.Popen([sys.executable, "-c", _CROSS % root, src, out], env=env,
+            env.pop("PYTHONWARNINGS", None)
+            strict = ["-W", "error"] if sd == seeds[-1] else []       # the last process turns warnings into errors
+            procs.append((sd, out, subprocess.Popen([sys.executable] + strict + ["-c", _CROSS % root, src, out], env=env,
                                                     stdout=subprocess.DEVNULL, stderr=subprocess.PIPE)))
         for sd, out, pr in procs:
             _, err = pr.communicate(timeout=1500)
@@ -482,7 +488,8 @@ def cross_process(run, texts, here, seeds):
                 if list(a) != list(r):
                     run.violation("crossproc:" + t,
                                   f"nondeterministic: {t!r} gives {tuple(a)} in this process and {tuple(r)} in a fresh process "
-                                  f"with string-hash seed {sd} (texts parsed in reversed order)",
+                                  f"with string-hash seed {sd} (texts parsed in reversed order"
+                                  + (", host warnings turned into errors)" if sd == seeds[-1] else ")"),
                                   {"text": t, "kind": "cross", "seed": sd})
     finally:
         import shutil
